@@ -1,4 +1,8 @@
 // L4: signed division (src/int/div.rs, src/int/div_uint.rs) -- C14
+// Proved modularly over the contracts of Uint::div_rem (l3_div_ct) and Uint::div_rem_vartime (l3_div_vt).
+// Not covered (closures / subtle::CtOption / traits): checked_div, checked_div_vartime, checked_div_floor,
+// checked_div_floor_vartime, CheckedDiv, DivVartime, the Div/Rem/DivAssign/RemAssign operators on Int and Wrapping<Int>.
+// Known finding F12: the mixed-width remainder of div_rem_uint_vartime / rem_uint_vartime (see the end of this file).
 use vstd::prelude::*;
 use vstd::arithmetic::power::*;
 use vstd::arithmetic::power2::*;
